@@ -15,7 +15,7 @@
 (* only when its range is used up.  obs.legal records that demand.         *)
 (* Lookups are answered from Tier 1 (obs.exp) and from the tables (des).   *)
 (***************************************************************************)
-EXTENDS Integers, Sequences, FiniteSets, TLC
+EXTENDS Integers, Sequences, FiniteSets, SequencesExt, TLC
 
 CONSTANTS IfBase, IfAdd, IfCap,   \* interface ids: first id, reserved built-in slots, all slots
           BuiltinIf,              \* names of the built-in interfaces (slot 0..)
@@ -216,19 +216,17 @@ ById(id) ==
 
 \* all resolvable ids of lo..hi with their descriptions, ascending (ids left open are skipped)
 Answer(tier, id) == IF tier = 1 THEN ById1(id) ELSE ById2(id)
-RECURSIVE ScanList(_, _, _, _)
-ScanList(tier, i, hi, acc) ==
-  IF i > hi THEN acc
-  ELSE LET d == Answer(tier, i) IN
-       ScanList(tier, i + 1, hi,
-                IF ~Open(i) /\ d.present = 1
-                THEN Append(acc, [id |-> i, size |-> d.size, managed |-> d.managed, name |-> d.name, ntype |-> d.ntype])
-                ELSE acc)
+ScanList(tier, lo, hi) ==
+  LET ids == {i \in lo..hi : ~Open(i) /\ Answer(tier, i).present = 1}
+      ord == SetToSortSeq(ids, LAMBDA x, y : x < y)
+  IN [k \in 1..Len(ord) |->
+        LET d == Answer(tier, ord[k]) IN
+        [id |-> ord[k], size |-> d.size, managed |-> d.managed, name |-> d.name, ntype |-> d.ntype]]
 Scan(lo, hi) ==
   /\ Keep
   /\ obs' = [a |-> "scan", arg |-> [lo |-> lo, hi |-> hi], legal |-> TRUE,
-             exp |-> [list |-> ScanList(1, lo, hi, <<>>)]]
-  /\ des' = [list |-> ScanList(2, lo, hi, <<>>)]
+             exp |-> [list |-> ScanList(1, lo, hi)]]
+  /\ des' = [list |-> ScanList(2, lo, hi)]
 
 ByName(text, len) ==
   /\ Keep
